@@ -11,6 +11,15 @@ ENGINES = [
 ]
 
 CHECKS = {
+    "C02": {
+        "text": "Static analysis over a frozen stage table (70 stages): taint of source handles shows no pull effect at "
+                "construction time in any non-generator stage (R2.1; tostream is exactly Stream(func(...))); abstract "
+                "interpretation of the pull/yield typestate shows one output per input on every path of each "
+                "sample-wise generator stage (R2.2) and for-header-only pulls with at most one yield per pull in block "
+                "stages (R2.3). Holds for every input and length. Does not decide the (j-1)*hop+size read count.",
+        "note": NOTE,
+        "technique": "taint/effect analysis + pull/yield typestate abstract interpretation",
+    },
     "C04": {
         "text": "Static analysis of the code generator LinearFilter.__call__: its string-building slice is constant-folded "
                 "over abstract coefficient tokens to reconstruct the exec'd generator for ~800 schemas (exhaustive over "
